@@ -114,6 +114,18 @@ def mutations(fi):
                 targets = [a.target]
             elif isinstance(a, ast.Delete):
                 targets = list(a.targets)
+            if isinstance(a, ast.AugAssign) and isinstance(a.target, ast.Name) and isinstance(a.op, (ast.Add, ast.BitOr, ast.Mult)):
+                # `x += [..]` / `x += other_list` extends the object x denotes in place (lists, sets, dicts); told from arithmetic by a
+                # container among the values of either side
+                def _containerish(e_):
+                    for al_ in prov.value_alts(prov.origin(g, n, e_)):
+                        if al_[0] == "tuple" or (al_[0] == "other" and al_[1][:1] in ("[", "{")) or \
+                                (al_[0] == "call" and al_[1][0] == "global" and al_[1][1] in ("list", "set", "dict", "sorted")):
+                            return True
+                    return False
+                recv_ = ast.copy_location(ast.Name(id=a.target.id, ctx=ast.Load()), a.target)
+                if _containerish(a.value) or _containerish(recv_):
+                    out.append((n, "in-place `%s`" % dump(a)[:40], recv_))
             for t in targets:
                 if isinstance(t, ast.Attribute):
                     out.append((n, "store %s" % dump(t), t.value))
@@ -235,7 +247,9 @@ def check_envelopes(ck, rule, prog, builders):
         for region in ("v1", "v2"):
             for rep in reps[region]:
                 if b in ("request", "notify"):
-                    cases = [("params", shape.Sym("params", truthy=True)), ("noparams", shape.K(None)),
+                    # (the parameters of a call are a list or a dictionary: what dump() lets through)
+                    cases = [("params", shape.Sym("params", truthy=True, pytype=list)), ("params", shape.Sym("params", truthy=True, pytype=dict)),
+                             ("noparams", shape.K(None)),
                              ("noparams", shape.L([]))]
                     if ck.tier == "thorough":
                         cases += [("noparams", shape.D({})), ("noparams", shape.K(())),
